@@ -161,6 +161,12 @@ def gammaApprox (x : Rat) : Rat :=
   let z := x - (x.floor : Rat)
   (if x < 1 then 1 / x else risingProd z k) * gammaPoly z
 
+/-- specification of the gamma function at the positive integers, Γ(n + 1) = n! — the value every integer
+argument must give whatever type carries it (Python `int`, a numpy integer or float scalar, a 0-d array) -/
+def fact : Nat → Nat
+  | 0 => 1
+  | n + 1 => (n + 1) * fact n
+
 /-! ## triangular density (rational, modelled completely) -/
 
 /-- `triangular_pdf(x, a, b)` on one point -/
